@@ -69,3 +69,33 @@ func TestC03RegressBackgroundRunKeepsDedupEntry(t *testing.T) {
 		w.execute(w.templates[0], "", 0, "i/p/x", plan("x2", 0, false, false)) // must attach to x1
 	})
 }
+
+// Found by TestC04FairOrder (seed 7): the cached "priority of the first
+// queued operation" of an invocation was not refreshed when a change of a
+// child's executing-worker count reordered its queued children, so the
+// parent competed with a stale priority and the wrong invocation was served.
+func TestC04RegressStaleChildPriority(t *testing.T) {
+	cfg := worldConfig{Queues: []queueSpec{{Prefix: "", Platform: 0, Predeclared: true, SizeClasses: []uint32{1}}}, InvDepth: 2, NActions: 6, NWorkers: 2}
+	mustPass(t, "C04", cfg, func(w *world) {
+		w.m.fair = true
+		w0, w1 := w.workers[0], w.workers[1]
+		w.next()
+		w.sync(w0, "idle", false, "")
+		w.next()
+		w.execute(w.templates[0], "", 0, "j/p", plan("e0", 0, false, false)) // handed to w0: B and B/p execute on 1 worker
+		w.next()
+		w.advance(time.Second)
+		w.next()
+		w.execute(w.templates[1], "", -50, "i/p", plan("e2", 0, false, false)) // queued in A/p
+		w.next()
+		w.execute(w.templates[3], "", 0, "i/q", plan("e3", 0, false, false)) // queued in A/q
+		w.next()
+		w.execute(w.templates[4], "", 0, "j/p", plan("e4", 0, false, false)) // queued in B/p
+		w.next()
+		w.advance(time.Second)
+		w.next()
+		w.execute(w.templates[0], "", 0, "i/p", plan("e5", 0, false, false)) // attaches to executing e0: A/p and A now execute on 1 worker
+		w.next()
+		w.sync(w1, "idle", false, "") // A and B tie at (1+1)*2^0; B was served least recently -> e4
+	})
+}
